@@ -477,14 +477,22 @@ where
         if self.is_closed.load(Ordering::SeqCst) {
             return Ok(());
         }
+        #[cfg(transparencies_stretto_verif)]
+        crate::verif::yield_point("open_checked");
 
         // stop the process item thread.
         self.clear_tx.send(()).await.map_err(|e| {
             CacheError::SendError(format!("fail to send clear signal to working thread {}", e))
         })?;
 
+        #[cfg(transparencies_stretto_verif)]
+        crate::verif::yield_point("clr_policy");
         self.policy.clear();
+        #[cfg(transparencies_stretto_verif)]
+        crate::verif::yield_point("clr_store");
         self.store.clear();
+        #[cfg(transparencies_stretto_verif)]
+        crate::verif::yield_point("clr_metrics");
         self.metrics.clear();
 
         Ok(())
@@ -553,11 +561,15 @@ where
         if self.is_closed.load(Ordering::SeqCst) {
             return Ok(());
         }
+        #[cfg(transparencies_stretto_verif)]
+        crate::verif::yield_point("open_checked");
 
         let wg = WaitGroup::new();
         let wait_item = Item::Wait(wg.add(1));
         match self.insert_buf_tx.try_send(wait_item) {
             Ok(_) => {
+                #[cfg(transparencies_stretto_verif)]
+                crate::verif::yield_point("block:wait");
                 wg.wait().await;
                 Ok(())
             }
@@ -578,6 +590,8 @@ where
         if self.is_closed.load(Ordering::SeqCst) {
             return Ok(());
         }
+        #[cfg(transparencies_stretto_verif)]
+        crate::verif::yield_point("open_checked");
 
         let (index, conflict) = self.key_to_hash.build_key(k);
         // delete immediately
@@ -586,11 +600,17 @@ where
         if let Some(prev) = prev {
             self.callback.on_exit(Some(prev.value.into_inner()));
         }
+        #[cfg(transparencies_stretto_verif)]
+        crate::verif::yield_point("rem_send");
+        #[cfg(transparencies_stretto_verif)]
+        crate::verif::yield_point("block:rem_send");
         // If we've set an item, it would be applied slightly later.
         // So we must push the same item to `setBuf` with the deletion flag.
         // This ensures that if a set is followed by a delete, it will be
         // applied in the correct order.
         let _ = self.insert_buf_tx.send(Item::delete(index, conflict)).await;
+        #[cfg(transparencies_stretto_verif)]
+        crate::verif::yield_point("unblock:rem_send");
 
         Ok(())
     }
@@ -601,13 +621,21 @@ where
         if self.is_closed.load(Ordering::SeqCst) {
             return Ok(());
         }
+        #[cfg(transparencies_stretto_verif)]
+        crate::verif::yield_point("open_checked");
 
         self.clear().await?;
+        #[cfg(transparencies_stretto_verif)]
+        crate::verif::yield_point("block:cls_stop");
         // Block until processItems thread is returned
         self.stop_tx.send(()).await.map_err(|e| {
             CacheError::SendError(format!("fail to send stop signal to working thread, {}", e))
         })?;
+        #[cfg(transparencies_stretto_verif)]
+        crate::verif::yield_point("unblock:cls_stop");
         self.policy.close().await?;
+        #[cfg(transparencies_stretto_verif)]
+        crate::verif::yield_point("cls_flag");
         self.is_closed.store(true, Ordering::SeqCst);
         Ok(())
     }
@@ -624,8 +652,12 @@ where
         if self.is_closed.load(Ordering::SeqCst) {
             return Ok(false);
         }
+        #[cfg(transparencies_stretto_verif)]
+        crate::verif::yield_point("open_checked");
 
         if let Some((index, item)) = self.try_update(key, val, cost, ttl, only_update)? {
+            #[cfg(transparencies_stretto_verif)]
+            crate::verif::yield_point("ins_send");
             let is_update = item.is_update();
             select! {
                 res = self.insert_buf_tx.send(item).fuse() => res.map_or_else(|_| {
@@ -696,6 +728,11 @@ where
 
     #[inline]
     pub(crate) fn spawn(mut self, spawner: Box<dyn Fn(BoxFuture<'static, ()>) + Send + Sync>) {
+        #[cfg(transparencies_stretto_verif)]
+        if crate::verif::park_requested() {
+            crate::verif::park(Box::new(self));
+            return;
+        }
         (spawner)(Box::pin(async move {
             let mut cleanup_timer = Timer::interval(self.cleanup_duration);
 
@@ -744,6 +781,16 @@ where
 
     #[inline]
     pub(crate) fn handle_cleanup_event(&mut self) -> Result<(), CacheError> {
+        #[cfg(transparencies_stretto_verif)]
+        let cleaned = self.store.try_cleanup_async(self.policy.clone())?;
+        #[cfg(transparencies_stretto_verif)]
+        crate::verif::yield_point("cleanup_done");
+        #[cfg(transparencies_stretto_verif)]
+        cleaned.into_iter().for_each(|victim| {
+            self.prepare_evict(&victim);
+            self.callback.on_evict(victim);
+        });
+        #[cfg(not(transparencies_stretto_verif))]
         self.store
             .try_cleanup_async(self.policy.clone())?
             .into_iter()
@@ -765,6 +812,8 @@ where
     #[inline]
     pub(crate) async fn clean(mut self) -> Result<(), CacheError> {
         loop {
+            #[cfg(transparencies_stretto_verif)]
+            crate::verif::yield_point("clean_item");
             select! {
                 // clear out the insert buffer channel.
                 item = self.processor.insert_buf_rx.recv().fuse() => {
@@ -785,3 +834,52 @@ impl_builder!(AsyncCacheBuilder);
 impl_async_cache!(AsyncCache, AsyncCacheBuilder, Item);
 impl_cache_processor!(CacheProcessor, Item);
 impl_cache_cleaner!(CacheCleaner, CacheProcessor, Item);
+
+#[cfg(transparencies_stretto_verif)]
+impl<V, U, CB, S> CacheProcessor<V, U, CB, S>
+where
+    V: Send + Sync + 'static,
+    U: UpdateValidator<Value = V>,
+    CB: CacheCallback<Value = V>,
+    S: BuildHasher + Clone + 'static + Send + Sync,
+{
+    pub(crate) fn verif_start_ts_len(&self) -> usize {
+        self.start_ts.len()
+    }
+
+    pub(crate) fn verif_item_size(&self) -> usize {
+        self.item_size
+    }
+
+    /// One iteration of the loop in `spawn`, with the `select!` arm chosen by the
+    /// caller; calls exactly the handlers the loop calls.
+    pub(crate) fn verif_step(&mut self, b: crate::verif::Branch) -> crate::verif::Stepped {
+        use crate::verif::{Branch, Stepped};
+        use async_channel::TryRecvError;
+        let r = match b {
+            Branch::Insert => match self.insert_buf_rx.try_recv() {
+                Ok(item) => self.handle_insert_event(Ok(item)),
+                Err(TryRecvError::Empty) => return Stepped::NotReady,
+                Err(TryRecvError::Closed) => self.handle_insert_event(Err(RecvError)),
+            },
+            Branch::Clear => match self.clear_rx.try_recv() {
+                Ok(_) | Err(TryRecvError::Closed) => {
+                    futures::executor::block_on(CacheCleaner::new(self).clean())
+                }
+                Err(TryRecvError::Empty) => return Stepped::NotReady,
+            },
+            Branch::Tick => self.handle_cleanup_event(),
+            Branch::Stop => match self.stop_rx.try_recv() {
+                Ok(_) | Err(TryRecvError::Closed) => {
+                    let _ = self.handle_close_event();
+                    return Stepped::Exited;
+                }
+                Err(TryRecvError::Empty) => return Stepped::NotReady,
+            },
+        };
+        match r {
+            Ok(()) => Stepped::Done,
+            Err(e) => Stepped::Failed(format!("{}", e)),
+        }
+    }
+}
